@@ -41,12 +41,22 @@ STYLES = [
     ('round4', ',', '.', "'", "'", ['-'], ['|'], True),
     ('uni', '┌', '┐', '└', '┘', ['─', '┄'], ['│', '┊'], False),
     ('unir', '╭', '╮', '╰', '╯', ['─', '┄'], ['│', '┊'], True),
+    # radius of one cell: the corner glyphs sit one column inside the sides, ` .--. ` over `|    |`
+    ('biground', '.', '.', "'", "'", ['-', '~'], ['|'], True),
 ]
 LABELS = ['ab', 'hi', 'k9', 'Zq7', 'label', 'A1 b2']
 
 
 def make_box(w, h, style, hz, vt, dash_rows, interior, ox, oy):
     name, tl, tr, bl, br = style[:5]
+    if name == 'biground':
+        rows = [' ' + tl + hz * w + tr]
+        for r in range(h):
+            v = dash_rows.get(r, vt)
+            inner = interior.get(r, '')
+            rows.append(v + ' ' + inner + ' ' * (w - len(inner)) + ' ' + v)
+        rows.append(' ' + bl + hz * w + br)
+        return [''] * oy + [' ' * ox + r for r in rows]
     rows = [tl + hz * w + tr]
     for r in range(h):
         v = dash_rows.get(r, vt)
@@ -56,8 +66,10 @@ def make_box(w, h, style, hz, vt, dash_rows, interior, ox, oy):
     return [''] * oy + [' ' * ox + r for r in rows]
 
 
-def expected_rect(w, h, rounded, dashed, ox, oy):
+def expected_rect(w, h, rounded, dashed, ox, oy, big=False):
     cls = tuple(sorted(['broken' if dashed else 'solid', 'nofill']))
+    if big:
+        return ('rect', cls, F(ox * 8 + 4), F(oy * 16 + 8), F((w + 3) * 8), F((h + 1) * 16), F(8))
     return ('rect', cls, F(ox * 8 + 4), F(oy * 16 + 8), F((w + 1) * 8), F((h + 1) * 16), F(4) if rounded else F(0))
 
 
@@ -146,13 +158,24 @@ def black_box(rows, scene):
         if any(v.denominator != 1 for v in (x0, y0, x1, y1)):
             return n, 'rect %s does not sit on cell centres' % show_el(e)
         x0, y0, x1, y1 = map(int, (x0, y0, x1, y1))
-        cs = {'tl': at(x0, y0), 'tr': at(x1, y0), 'bl': at(x0, y1), 'br': at(x1, y1)}
+        if e[6] == 8:
+            # radius of one cell: the corner glyphs sit one column inside the sides (`.---.` over `|     |`),
+            # the corner cells of the bounding box themselves are not part of the outline
+            if x1 - x0 < 2:
+                return n, 'rect %s with a radius of one cell is narrower than two cells' % show_el(e)
+            cs = {'tl': at(x0 + 1, y0), 'tr': at(x1 - 1, y0), 'bl': at(x0 + 1, y1), 'br': at(x1 - 1, y1)}
+            edge = [(x, y0) for x in range(x0 + 1, x1)] + [(x, y1) for x in range(x0 + 1, x1)] + \
+                   [(x0, y) for y in range(y0 + 1, y1)] + [(x1, y) for y in range(y0 + 1, y1)]
+        elif e[6] in (0, 4):
+            cs = {'tl': at(x0, y0), 'tr': at(x1, y0), 'bl': at(x0, y1), 'br': at(x1, y1)}
+            edge = [(x, y0) for x in range(x0, x1 + 1)] + [(x, y1) for x in range(x0, x1 + 1)] + \
+                   [(x0, y) for y in range(y0, y1 + 1)] + [(x1, y) for y in range(y0, y1 + 1)]
+        else:
+            return n, 'rect %s has a corner radius that no border character draws' % show_el(e)
         table = ROUND_CORNERS if e[6] > 0 else SHARP_CORNERS
         for k, c in cs.items():
             if c not in table[k]:
                 return n, 'rect %s: its %s corner cell holds %r, which does not draw a %s corner' % (show_el(e), k, c, 'rounded' if e[6] > 0 else 'sharp')
-        edge = [(x, y0) for x in range(x0, x1 + 1)] + [(x, y1) for x in range(x0, x1 + 1)] + \
-               [(x0, y) for y in range(y0, y1 + 1)] + [(x1, y) for y in range(y0, y1 + 1)]
         for (x, y) in edge:
             if at(x, y) in ' \0':
                 return n, 'rect %s: no border character at cell (%d,%d) of its outline' % (show_el(e), x, y)
@@ -244,13 +267,13 @@ def box_case(rng, w, h, style, ox, oy, with_dash=None):
                     continue
             pad = rng.randint(1, w - len(lab) - 1)
             interior[y] = ' ' * pad + lab
-            col = ox + 1 + pad
+            col = ox + 1 + pad + (1 if name == 'biground' else 0)
             for word in lab.split(' '):
                 texts.append((col, oy + 1 + y, word))
                 col += len(word) + 1
     rows = make_box(w, h, style, hz, vt, dash_rows, interior, ox, oy)
     dashed = (hz in DASHED and w > 0) or (vt in DASHED and h > 0) or bool(dash_rows)
-    want = expected_rect(w, h, rounded, dashed, ox, oy)
+    want = expected_rect(w, h, rounded, dashed, ox, oy, big=(name == 'biground'))
     return {'kind': 'box', 'rows': rows, 'style': name, 'want': [want[0], list(want[1])] + [str(x) for x in want[2:]], 'texts': texts}
 
 
@@ -263,20 +286,22 @@ def near_box(rng):
     for b in range(rng.randint(1, 3)):
         st = rng.choice(STYLES[:3] if rng.random() < 0.8 else STYLES)
         w = rng.randint(0 if not st[7] else 1, 6)
-        h = rng.randint(0, 4)
-        if w + 2 > W or h + 2 > H:
-            continue
+        h = rng.randint(1 if st[0] == 'biground' else 0, 4)
         rows = make_box(w, h, st, rng.choice(st[5]), rng.choice(st[6]), {}, {}, 0, 0)
-        ox = rng.randint(0, W - w - 2)
-        oy = rng.randint(0, H - h - 2)
+        bw = max(len(r) for r in rows)
+        if bw > W or len(rows) > H:
+            continue
+        ox = rng.randint(0, W - bw)
+        oy = rng.randint(0, H - len(rows))
         for y, r in enumerate(rows):
             for x, ch in enumerate(r):
                 if ch != ' ':
                     g[oy + y][ox + x] = ch
                     border.append((ox + x, oy + y))
     gap = False
+    boxes = []
     for m in range(rng.randint(1, 3)):
-        op = rng.randrange(5)
+        op = rng.randrange(7)
         if op == 0 and border:
             x, y = rng.choice(border)
             g[y][x] = ' '
@@ -299,10 +324,24 @@ def near_box(rng):
                 xx, yy = (x + k, y) if ch == '-' else (x, y + k)
                 if 0 <= xx < W and 0 <= yy < H and g[yy][xx] == ' ':
                     g[yy][xx] = ch
-        else:
+        elif op == 4:
             x = rng.randrange(W)
             y = rng.randrange(H)
             g[y][x] = rng.choice("-|+.' -|")
+        elif op == 5 and border:
+            # rungs: fill a blank stretch of a row that starts next to a border character
+            x, y = rng.choice(border)
+            ch = rng.choice('-~')
+            k = x + 1
+            while k < W and g[y][k] == ' ':
+                g[y][k] = ch
+                k += 1
+        elif border:
+            # a stroke character diagonally next to a border character (corner glyphs then draw longer arcs)
+            x, y = rng.choice(border)
+            dx, dy = rng.choice([(1, 1), (-1, 1), (1, -1), (-1, -1)])
+            if 0 <= x + dx < W and 0 <= y + dy < H and g[y + dy][x + dx] == ' ':
+                g[y + dy][x + dx] = rng.choice('|+-')
     return {'kind': 'near', 'rows': [''.join(r).rstrip() for r in g], 'gap': gap}
 
 
@@ -316,6 +355,8 @@ def run_shard(ctx, shard):
             if w < wmin:
                 continue
             for h in shard['heights']:
+                if style[0] == 'biground' and h < 1:
+                    continue
                 for (ox, oy) in shard['offsets']:
                     case = box_case(rng, w, h, style, ox, oy)
                     ctx.run_case(case)
@@ -375,7 +416,7 @@ def execute(run):
             for part in range(2):
                 shards.append({'kind': 'boxes', 'name': 'boxes-%d-%d' % (si, part), 'style': si, 'widths': widths[part::2], 'heights': heights,
                                'offsets': offsets[:2] if part else offsets[2:]})
-        shards += [{'kind': 'near', 'name': 'near-%d' % i, 'n': 1500} for i in range(16)]
+        shards += [{'kind': 'near', 'name': 'near-%d' % i, 'n': 4000} for i in range(16)]
         shards += [{'kind': 'rand', 'name': 'rand-%d' % i, 'n': 1500} for i in range(8)]
         shards += exh_shards(".'-| ", 3, 3, per=8192, step=3)
         shards += exh_shards("-|+ ", 3, 3, per=8192, step=3)
@@ -393,8 +434,10 @@ def execute(run):
         shards += exh_shards("-|+ ", 3, 3, per=32768)
         shards += exh_shards(".'-| ", 4, 3, per=16384, step=601)
         shards += exh_shards("-|+ ", 4, 3, per=16384, step=61)
+        shards += exh_shards("+.'-| ", 3, 3, per=32768, step=5)
+        shards += exh_shards(",`-|. ", 3, 3, per=32768, step=11)
         run.extra_cov['exhaustive_scopes'] = ['boxes: all interior widths 0..60 x heights 0..30 x 4 offsets x 7 corner styles (edge style, dashes, labels random per box)',
-                                              'all 3x3 grids over {.,\',-,|,space} and over {-,|,+,space}']
+                                              'all 3x3 grids over {.,\',-,|,space} and over {-,|,+,space}; every 5th/11th over {+,.,\',-,|,space} / {,,`,-,|,.,space}']
     run.run_shards(binary, shards)
 
 
